@@ -52,6 +52,9 @@ pub mod ffi {
         let idx = idx.try_into().ok();
         match idx.and_then(|idx| this.get(idx)) {
             Some(src) => {
+                #[cfg(feature = "verif-hooks")]
+                crate::verif::list_ptr_escaped(src.as_ptr() as usize, 0);
+
                 // We got a pointer into the list, clone it into out at the correct alignment
 
                 // To leave this value in a valid state even if a panic happens
@@ -63,6 +66,8 @@ pub mod ffi {
                 // `out` must be a valid RotoOption<T>.
                 unsafe { out.cast::<u8>().write(1) };
 
+                #[cfg(feature = "verif-hooks")]
+                crate::verif::before_list_lock(&this.0);
                 let raw = this.0.lock().unwrap();
                 let size = raw.vtable.size();
                 let alignment = raw.vtable.align();
@@ -95,6 +100,9 @@ pub mod ffi {
                         };
                     }
                 }
+
+                #[cfg(feature = "verif-hooks")]
+                crate::verif::list_ptr_done(src.as_ptr() as usize);
 
                 // SAFETY: 0 is the discriminant of `Some`. We asserted that
                 // `out` must be a valid RotoOption<T>.
@@ -169,6 +177,8 @@ pub mod boundary {
                 return true;
             }
 
+            #[cfg(feature = "verif-hooks")]
+            crate::verif::before_list_lock(&self.inner.0);
             let this = self.inner.0.lock().unwrap();
 
             // SAFETY: The rawlist represents a slice of T::Transformed so
@@ -181,6 +191,8 @@ pub mod boundary {
                 )
             };
 
+            #[cfg(feature = "verif-hooks")]
+            crate::verif::before_list_lock(&other.inner.0);
             let other = other.inner.0.lock().unwrap();
 
             // SAFETY: The rawlist represents a slice of T::Transformed so
@@ -243,11 +255,25 @@ pub mod boundary {
         pub fn get(&self, idx: usize) -> Option<T> {
             let ptr = self.inner.get(idx)?;
 
+            #[cfg(feature = "verif-hooks")]
+            crate::verif::list_ptr_escaped(
+                ptr.as_ptr() as usize,
+                std::mem::size_of::<T::Transformed>(),
+            );
+
             // SAFETY: The list has values of T::Transformed, which means that
             // this cast is valid.
             let transformed =
                 unsafe { ptr.cast::<T::Transformed>().as_ref() };
 
+            #[cfg(feature = "verif-hooks")]
+            let res = Some(T::untransform(transformed.clone()));
+            #[cfg(feature = "verif-hooks")]
+            crate::verif::list_ptr_done(ptr.as_ptr() as usize);
+            #[cfg(feature = "verif-hooks")]
+            return res;
+
+            #[cfg(not(feature = "verif-hooks"))]
             Some(T::untransform(transformed.clone()))
         }
 
@@ -315,6 +341,8 @@ pub mod boundary {
     impl<T: Clone + Value> List<T> {
         /// Convert this [`List`] into a regular [`Vec`].
         pub fn to_vec(&self) -> Vec<T> {
+            #[cfg(feature = "verif-hooks")]
+            crate::verif::before_list_lock(&self.inner.0);
             let guard = self.inner.0.lock().unwrap();
 
             // SAFETY: The RawList always contains a valid slice. Even if the
@@ -453,7 +481,11 @@ impl PartialEq for ErasedList {
             return true;
         }
 
+        #[cfg(feature = "verif-hooks")]
+        crate::verif::before_list_lock(&self.0);
         let this = self.0.lock().unwrap();
+        #[cfg(feature = "verif-hooks")]
+        crate::verif::before_list_lock(&other.0);
         let other = other.0.lock().unwrap();
 
         if this.len != other.len {
@@ -495,6 +527,8 @@ impl ErasedList {
     pub unsafe fn push(&self, elem_ptr: NonNull<T>) {
         // SAFETY: We require that `elem_ptr` must be a pointer to the element
         // type `T` that the list contains.
+        #[cfg(feature = "verif-hooks")]
+        crate::verif::before_list_lock(&self.0);
         unsafe { self.0.lock().unwrap().push(elem_ptr) };
     }
 
@@ -505,9 +539,13 @@ impl ErasedList {
     /// Both `self` and `other` must have the same element type.
     ///
     pub unsafe fn concat(&self, other: &Self) -> Self {
+        #[cfg(feature = "verif-hooks")]
+        crate::verif::before_list_lock(&self.0);
         let a = self.0.lock().unwrap();
 
         let new = Self::new(a.vtable.clone());
+        #[cfg(feature = "verif-hooks")]
+        crate::verif::before_list_lock(&new.0);
         let mut raw = new.0.lock().unwrap();
 
         // SAFETY: self and other have the same element type
@@ -517,6 +555,8 @@ impl ErasedList {
         // We need to ensure we don't lock the mutex twice
         drop(a);
 
+        #[cfg(feature = "verif-hooks")]
+        crate::verif::before_list_lock(&other.0);
         let b = other.0.lock().unwrap();
 
         // SAFETY: raw and b have the same element type
@@ -530,6 +570,8 @@ impl ErasedList {
     }
 
     pub fn get(&self, idx: usize) -> Option<NonNull<T>> {
+        #[cfg(feature = "verif-hooks")]
+        crate::verif::before_list_lock(&self.0);
         self.0.lock().unwrap().get(idx)
     }
 
@@ -543,6 +585,8 @@ impl ErasedList {
     pub unsafe fn contains(&self, item_ptr: NonNull<T>) -> bool {
         // SAFETY: We require that the item_ptr points to the same type as in
         // the list.
+        #[cfg(feature = "verif-hooks")]
+        crate::verif::before_list_lock(&self.0);
         unsafe { self.0.lock().unwrap().contains(item_ptr) }
     }
 
@@ -554,6 +598,8 @@ impl ErasedList {
     ///  - There must be no references to that value.
     ///  - The value cannot be used after this function.
     pub unsafe fn contains_owned(&self, item_ptr: NonNull<T>) -> bool {
+        #[cfg(feature = "verif-hooks")]
+        crate::verif::before_list_lock(&self.0);
         let raw = self.0.lock().unwrap();
 
         // SAFETY: We require that the item_ptr points to the same type as in
@@ -580,6 +626,8 @@ impl ErasedList {
     pub unsafe fn index(&self, item_ptr: NonNull<T>) -> Option<usize> {
         // SAFETY: We require that the item_ptr points to the same type as in
         // the list.
+        #[cfg(feature = "verif-hooks")]
+        crate::verif::before_list_lock(&self.0);
         unsafe { self.0.lock().unwrap().index(item_ptr) }
     }
 
@@ -591,6 +639,8 @@ impl ErasedList {
     ///  - There must be no references to that value.
     ///  - The value cannot be used after this function.
     pub unsafe fn index_owned(&self, item_ptr: NonNull<T>) -> Option<usize> {
+        #[cfg(feature = "verif-hooks")]
+        crate::verif::before_list_lock(&self.0);
         let raw = self.0.lock().unwrap();
 
         // SAFETY: We require that the item_ptr points to the same type as in
@@ -608,18 +658,26 @@ impl ErasedList {
     }
 
     pub fn swap(&self, i: usize, j: usize) {
+        #[cfg(feature = "verif-hooks")]
+        crate::verif::before_list_lock(&self.0);
         self.0.lock().unwrap().swap(i, j)
     }
 
     pub fn len(&self) -> usize {
+        #[cfg(feature = "verif-hooks")]
+        crate::verif::before_list_lock(&self.0);
         self.0.lock().unwrap().len()
     }
 
     pub fn capacity(&self) -> usize {
+        #[cfg(feature = "verif-hooks")]
+        crate::verif::before_list_lock(&self.0);
         self.0.lock().unwrap().capacity()
     }
 
     pub fn is_empty(&self) -> bool {
+        #[cfg(feature = "verif-hooks")]
+        crate::verif::before_list_lock(&self.0);
         self.0.lock().unwrap().is_empty()
     }
 }
@@ -920,6 +978,12 @@ impl RawList {
 
         if new_capacity > self.capacity {
             if let Some(ptr) = self.current_memory() {
+                #[cfg(feature = "verif-hooks")]
+                crate::verif::list_buffer_released(
+                    ptr.as_ptr() as usize,
+                    self.vtable.size() * self.capacity,
+                );
+
                 // SAFETY: At this point, we know that:
                 //
                 //  - The size of the element layout is non-zero.
@@ -1058,6 +1122,12 @@ impl RawList {
         }
 
         if let Some(ptr) = self.current_memory() {
+            #[cfg(feature = "verif-hooks")]
+            crate::verif::list_buffer_released(
+                ptr.as_ptr() as usize,
+                self.vtable.size() * self.capacity,
+            );
+
             // SAFETY: We allocated the ptr with alloc_array or realloc_array.
             unsafe {
                 dealloc_array(ptr, self.vtable.layout(), self.capacity)
